@@ -8,3 +8,22 @@ Fixpoint py_startswith (s prefix : string) : bool :=
   | String a p', String b s' => Ascii.eqb a b && py_startswith s' p'
   | String _ _, EmptyString => false
   end.
+
+(* ---------- initialize_can_data / map_messages_to_devices ---------- *)
+From FcpV Require Import Schema.Types Layout.Packed Dbc.DbcModel.
+Import ListNotations.
+
+(* CanMessage(frame_id, name_pascal, dlc, signals, senders, period) *)
+Record cmsg (S : Type) := { c_frame_id : Z; c_name : string; c_dlc : Z; c_signals : S; c_senders : list string; c_period : Z }.
+Arguments c_frame_id {S} _. Arguments c_name {S} _. Arguments c_dlc {S} _. Arguments c_signals {S} _. Arguments c_senders {S} _. Arguments c_period {S} _.
+
+(* d.setdefault(k, []).append(x): a dict in insertion order *)
+Fixpoint setdefault_append {A : Type} (d : list (string * list A)) (k : string) (x : A) : list (string * list A) :=
+  match d with
+  | [] => [(k, [x])]
+  | (k', l) :: d' => if String.eqb k' k then (k', l ++ [x]) :: d' else (k', l) :: setdefault_append d' k x
+  end.
+
+(* extension.fields.get(key, default) read as a string / as an integer (the model's reading of binding fields, as in Dbc.DbcModel) *)
+Definition impl_str_default (im : simpl) (k default : string) : string := match impl_str im k with Some s => s | None => default end.
+Definition impl_int_default (im : simpl) (k : string) (default : Z) : Z := match impl_int im k with Some z => z | None => default end.
